@@ -145,11 +145,18 @@ type clientView struct {
 	Ends    []rpcEnd
 	Framing string // non-empty: the body violates the client's framing
 	Flushes []int  // body offsets at which the underlying writer was flushed
+	// bytes written after the end-of-stream frame (framed forms): always a violation
+	AfterEnd int
 }
 
 // splitEnd separates the end frame the transcoder wrote (an envelope write with the
 // end flag followed by its payload write, as encodeEnd does) from the data before it.
 func splitEnd(rec *recorder, mask byte) (data []byte, end []byte, found bool) {
+	data, end, found, _ = splitEndAfter(rec, mask)
+	return data, end, found
+}
+
+func splitEndAfter(rec *recorder, mask byte) (data []byte, end []byte, found bool, after int) {
 	var writes [][]byte
 	for _, e := range rec.events {
 		if e.Kind == "W" {
@@ -169,14 +176,14 @@ func splitEnd(rec *recorder, mask byte) (data []byte, end []byte, found bool) {
 					data = append(data, x...)
 				}
 				data = append(data, rest[n:]...) // anything after the end frame counts as data (a violation)
-				return data, rest[:n], true
+				return data, rest[:n], true, len(rest) - n
 			}
 		}
 	}
 	for _, x := range writes {
 		data = append(data, x...)
 	}
-	return data, nil, false
+	return data, nil, false, 0
 }
 
 func checkFrames(data []byte) string {
@@ -219,8 +226,8 @@ func decodeClient(form int, rec *recorder) clientView {
 			v.Ends = append(v.Ends, e)
 			v.Head = stripGRPCKeys(v.Head)
 		}
-		data, end, found := splitEnd(rec, 0x80)
-		v.Data = data
+		data, end, found, after := splitEndAfter(rec, 0x80)
+		v.Data, v.AfterEnd = data, after
 		v.Framing = checkFrames(data)
 		if found {
 			tp := textproto.MIMEHeader{}
@@ -240,8 +247,8 @@ func decodeClient(form int, rec *recorder) clientView {
 			v.Ends = append(v.Ends, e)
 		}
 	case formConnectStream:
-		data, endb, found := splitEnd(rec, 2)
-		v.Data = data
+		data, endb, found, after := splitEndAfter(rec, 2)
+		v.Data, v.AfterEnd = data, after
 		v.Framing = checkFrames(data)
 		if found {
 			var end struct {
@@ -336,7 +343,7 @@ func (v clientView) value(panicked bool, writes []string, known map[string]bool)
 			fl = append(fl, int64(off))
 		}
 	}
-	return L{panicked, int64(v.Heads), int64(v.Status), hdrV(v.Head), Bb(v.Data), ends, wr, fl}
+	return L{panicked, int64(v.Heads), int64(v.Status), hdrV(v.Head), Bb(v.Data), ends, wr, fl, int64(v.AfterEnd)}
 }
 
 var _ = bytes.Equal
